@@ -1,6 +1,6 @@
 (* Proofs about Model/Diagram.v (C20). *)
 From Coq Require Import List NArith Arith Bool Lia.
-From PP Require Import Model.Str Model.Diagram.
+From PP Require Import Model.Str Model.Diagram Model.DiagramEx.
 Import ListNotations.
 Local Open Scope nat_scope.
 
@@ -696,25 +696,33 @@ Fixpoint dval (l : str) : nat :=
   | c :: t => (N.to_nat c - 48) * 10 ^ length t + dval t
   end.
 
+Lemma dec_aux_S : forall f n acc, dec_aux (S f) n acc =
+  if n / 10 =? 0 then N.of_nat (48 + n mod 10) :: acc else dec_aux f (n / 10) (N.of_nat (48 + n mod 10) :: acc).
+Proof. reflexivity. Qed.
+Lemma dval_cons : forall c t, dval (c :: t) = (N.to_nat c - 48) * 10 ^ length t + dval t.
+Proof. reflexivity. Qed.
 Lemma dec_aux_val : forall f n acc, n < f -> dval (dec_aux f n acc) = n * 10 ^ length acc + dval acc.
 Proof.
-  induction f as [|f IH]; intros n acc Hn; [lia|]. simpl dec_aux.
+  induction f as [|f IH]; intros n acc Hn; [lia|]. rewrite dec_aux_S.
   pose proof (Nat.div_mod n 10 ltac:(lia)) as DM.
-  assert (Dg : N.to_nat (N.of_nat (48 + n mod 10)) - 48 = n mod 10) by (rewrite Nnat.Nat2N.id; lia).
-  destruct (n / 10 =? 0) eqn:E.
-  - apply Nat.eqb_eq in E. cbn [dval]. rewrite Dg. rewrite E in DM. replace (n mod 10) with n by lia. reflexivity.
-  - apply Nat.eqb_neq in E. rewrite IH.
-    + cbn [dval length]. rewrite Dg. rewrite Nat.pow_succ_r'.
-      set (q := n / 10) in *. set (m := n mod 10) in *. set (P := 10 ^ length acc).
-      replace (n * P) with ((10 * q + m) * P) by (f_equal; lia). ring.
-    + assert (n / 10 < n) by (apply Nat.div_lt; lia). lia.
+  pose proof (Nat.mod_upper_bound n 10 ltac:(lia)) as MB.
+  remember (n / 10) as q. remember (n mod 10) as m.
+  assert (Dg : N.to_nat (N.of_nat (48 + m)) - 48 = m) by (rewrite Nnat.Nat2N.id; lia).
+  destruct (q =? 0) eqn:E.
+  - apply Nat.eqb_eq in E. rewrite dval_cons, Dg. subst q. replace n with m by lia. reflexivity.
+  - apply Nat.eqb_neq in E. rewrite IH by lia.
+    rewrite dval_cons, Dg. cbn [length]. rewrite Nat.pow_succ_r'.
+    generalize (10 ^ length acc). intros P. subst n. ring.
 Qed.
 
 Lemma dval_dec : forall n, dval (dec n) = n.
-Proof. intros; unfold dec. rewrite dec_aux_val by lia. simpl. lia. Qed.
+Proof. intros; unfold dec. rewrite dec_aux_val by lia. cbn [length dval]. rewrite Nat.pow_0_r. lia. Qed.
 
 Lemma dval_zeros : forall k s, dval (repeat 48%N k ++ s) = dval s.
-Proof. induction k; simpl; intros; auto. Qed.
+Proof.
+  induction k; intros; [reflexivity|]. cbn [repeat app]. rewrite dval_cons.
+  replace (N.to_nat 48%N - 48) with 0 by reflexivity. rewrite Nat.mul_0_l. apply IHk.
+Qed.
 
 Lemma fmt4_inj : forall n m, fmt4 n = fmt4 m -> n = m.
 Proof.
@@ -725,9 +733,10 @@ Definition nohyph (s : str) : Prop := Forall (fun c => c <> HYPHEN) s.
 
 Lemma dec_aux_nohyph : forall f n acc, nohyph acc -> nohyph (dec_aux f n acc).
 Proof.
-  induction f as [|f IH]; intros n acc H; simpl; auto.
+  induction f as [|f IH]; intros n acc H; [exact H|]. rewrite dec_aux_S.
   assert (D : N.of_nat (48 + n mod 10) <> HYPHEN).
-  { intro E. apply (f_equal N.to_nat) in E. rewrite Nnat.Nat2N.id in E. unfold HYPHEN in E. simpl in E. lia. }
+  { intro E. apply (f_equal N.to_nat) in E. rewrite Nnat.Nat2N.id in E.
+    replace (N.to_nat HYPHEN) with 45 in E by reflexivity. lia. }
   destruct (n / 10 =? 0); [|apply IH]; constructor; auto.
 Qed.
 
@@ -1022,3 +1031,181 @@ Proof.
 Qed.
 
 Lemma init_bm_ok : bm_ok init_state.  Proof. constructor. Qed.
+
+(* ------------------------------------------------------------------------------------------------ top level *)
+Theorem named_terminates : forall G o fx root rk R,
+  (forall x, rk x <= R) ->
+  (forall x y, In y (kids G x) -> stopper G o y = false -> rk y < rk x) ->
+  forall fuel, (length G + 1) * (R + 2) <= fuel ->
+  exists out st, to_railroad G o fx root fuel = (Ok out, st).
+Proof.
+  intros G o fx root rk R HR Hrk fuel Hf. unfold to_railroad, to_railroad_from.
+  destruct (conv_terminates G o fx rk R HR Hrk fuel root 1 None 0 None init_state) as (r & st1 & E).
+  { eapply Nat.le_trans; [apply cost_le_bound; auto | exact Hf]. }
+  rewrite E. destruct (emit _ (root_extract G root st1)) as [out st2]. eauto.
+Qed.
+
+Theorem depth_le_fuel : forall G o fx root fuel r st,
+  to_railroad G o fx root fuel = (r, st) -> c_maxdepth st <= 1 + fuel.
+Proof.
+  intros G o fx root fuel r st H. unfold to_railroad, to_railroad_from in H.
+  destruct (conv G o fx fuel 1 root None 0 None init_state) as [[r1|] st1] eqn:C.
+  - apply conv_depth in C. simpl in C.
+    assert (M : same_md st1 (root_extract G root st1)).
+    { unfold root_extract. destruct (assoc root (c_states st1)); [|reflexivity].
+      eapply same_md_trans; [|apply mark_md]. destruct (truthy _); reflexivity. }
+    destruct (emit _ (root_extract G root st1)) as [out st2] eqn:E. inversion H; subst.
+    assert (M2 : forall ds s o' s', emit ds s = (o', s') -> same_md s s').
+    { induction ds as [|d ds IH]; simpl; intros s o' s' H0; [inversion H0; reflexivity|].
+      destruct (make_bookmark (d_name d) s) as [b s1] eqn:Mb. destruct (emit ds s1) as [o1 s2] eqn:E1.
+      inversion H0; subst. apply make_bookmark_md in Mb. apply IH in E1. unfold same_md in *; congruence. }
+    apply M2 in E. unfold same_md in *. lia.
+  - inversion H; subst. apply conv_depth in C. simpl in C. lia.
+Qed.
+
+Theorem out_of_fuel_is_deep : forall G o fx root fuel st,
+  to_railroad G o fx root fuel = (OutOfFuel, st) -> 1 + fuel <= c_maxdepth st.
+Proof.
+  intros G o fx root fuel st H. unfold to_railroad, to_railroad_from in H.
+  destruct (conv G o fx fuel 1 root None 0 None init_state) as [[r1|] st1] eqn:C.
+  - destruct (emit _ (root_extract G root st1)); discriminate.
+  - inversion H; subst. eapply conv_oof_depth; eauto.
+Qed.
+
+(* ------------------------------------------------------------------------------------------------ F-20: e <<= Opt(e) *)
+Section Loop.
+  Variable o : opts.
+  Let G := G_fwd_opt.
+
+  Definition loop_inv (st : cstate) : Prop :=
+    assoc 1 (c_diagrams st) = None /\ forall s, assoc 1 (c_states st) = Some s -> es_name s = None.
+
+  Lemma loop_inv_sd : forall st st', same_sd st st' -> loop_inv st -> loop_inv st'.
+  Proof. intros st st' [H1 H2] [A B]; unfold loop_inv; rewrite H1, H2; auto. Qed.
+
+  Lemma loop_forever : forall f,
+    (forall d p i h st, loop_inv st -> fst (conv G o false f d 0 p i h st) = OutOfFuel) /\
+    (forall d p i h st, loop_inv st -> fst (conv G o false f d 1 p i h st) = OutOfFuel).
+  Proof.
+    induction f as [|f [IH0 IH1]]; [split; reflexivity|]. split; intros d p i h st Inv.
+    - rewrite conv_S. replace (bypass G 0) with true by reflexivity.
+      replace (hd 0 (kids G 0)) with 1 by reflexivity.
+      match goal with |- fst (match ?c with _ => _ end) = _ => pose proof (IH1 (S d) p i
+        (if truthy (n_custom (gnode G 1)) then None else Some (name_of G 0 h)) (note_depth d st)
+        (loop_inv_sd _ _ (conj eq_refl eq_refl) Inv)) as E; destruct c as [[ret|] st1] end.
+      + simpl in E; discriminate.
+      + reflexivity.
+    - rewrite conv_S. replace (bypass G 1) with false by reflexivity.
+      assert (RT : repeat_test G false 1 h (note_depth d st) = None).
+      { unfold repeat_test. replace (worth G 1) with true by reflexivity. destruct Inv as [A B].
+        unfold in_diagrams. simpl c_states. simpl c_diagrams. rewrite A.
+        destruct (assoc 1 (c_states st)) as [s|] eqn:Es; auto. rewrite (B s eq_refl). reflexivity. }
+      rewrite RT. replace (negb (n_show (gnode G 1)) && negb (o_hidden o)) with false by reflexivity.
+      replace (choose G o 1 (name_of G 1 h)) with (Some {| p_func := FOptional; p_slot := SItem IVEmpty |}) by reflexivity.
+      destruct (create G 1 {| p_func := FOptional; p_slot := SItem IVEmpty |} p i (note_depth d st)) as [r st1] eqn:C.
+      assert (Inv1 : loop_inv st1).
+      { unfold create, alloc in C. simpl in C. inversion C; subst. destruct Inv as [A B]. split; simpl; auto.
+        rewrite assoc_set_same. intros s Hs; inversion Hs; reflexivity. }
+      replace (kids G 1) with [0] by reflexivity. simpl kids_loop.
+      match goal with |- fst (match (match ?c with _ => _ end) with _ => _ end) = _ =>
+        pose proof (IH0 (S d) (Some r) 0 None (with_items st1 r (insert_at 0 None))
+                        (loop_inv_sd _ _ (with_items_sd _ _ _) Inv1)) as E; destruct c as [[ret|] st2] end.
+      + simpl in E; discriminate.
+      + reflexivity.
+  Qed.
+
+  Theorem fwd_opt_never_terminates : forall fuel, fst (to_railroad G o false 0 fuel) = OutOfFuel.
+  Proof.
+    intros fuel. unfold to_railroad, to_railroad_from.
+    pose proof (proj1 (loop_forever fuel) 1 None 0 None init_state) as E.
+    destruct (conv G o false fuel 1 0 None 0 None init_state) as [[r|] st1].
+    - simpl in E. assert (loop_inv init_state) by (split; [reflexivity | intros s Hs; discriminate]).
+      specialize (E H). discriminate.
+    - reflexivity.
+  Qed.
+End Loop.
+
+(* ------------------------------------------------------------------------------------------------ checks on concrete graphs *)
+Lemma assoc_in : forall A k (l : list (nat * A)) v, assoc k l = Some v -> In (k, v) l.
+Proof.
+  induction l as [|[k2 v2] t IH]; simpl; intros; try discriminate.
+  destruct (k =? k2) eqn:E.
+  - apply Nat.eqb_eq in E; subst. inversion H; auto.
+  - right; eauto.
+Qed.
+
+Lemma stopper_b_eq : forall G o x, stopper_b G o x = stopper G o x.
+Proof. reflexivity. Qed.
+
+Lemma rank_check_sound : forall G o rk, rank_check G o rk = true ->
+  forall x y, In y (kids G x) -> stopper G o y = false -> rk y < rk x.
+Proof.
+  intros G o rk H x y Hin Hs. unfold kids, gnode in Hin. destruct (assoc x G) as [n|] eqn:E; [|simpl in Hin; contradiction].
+  apply assoc_in in E. unfold rank_check in H. rewrite forallb_forall in H. specialize (H _ E). simpl in H.
+  rewrite forallb_forall in H. specialize (H _ Hin). rewrite stopper_b_eq, Hs in H. simpl in H.
+  apply Nat.ltb_lt; auto.
+Qed.
+
+Lemma nth_bound : forall (l : list nat) R, forallb (fun v => v <=? R) l = true -> forall x, nth x l 0 <= R.
+Proof.
+  induction l as [|a l IH]; simpl; intros R H x.
+  - destruct x; lia.
+  - apply andb_true_iff in H as [H1 H2]. apply Nat.leb_le in H1. destruct x; auto.
+Qed.
+
+(* --- order of the output *)
+Inductive sorted_idx : list dentry -> Prop :=
+| sorted_nil : sorted_idx []
+| sorted_one : forall d, sorted_idx [d]
+| sorted_cons : forall d e t, d_index d <= d_index e -> sorted_idx (e :: t) -> sorted_idx (d :: e :: t).
+
+Lemma insert_sorted_sorted : forall d l, sorted_idx l -> sorted_idx (insert_sorted d l).
+Proof.
+  induction l as [|e l IH]; simpl; intros H; [constructor|].
+  destruct (d_index d <=? d_index e) eqn:E.
+  - apply Nat.leb_le in E. constructor; auto.
+  - apply Nat.leb_gt in E. inversion H; subst; simpl.
+    + constructor; [lia|constructor].
+    + specialize (IH H3). simpl in IH. destruct (d_index d <=? d_index e0) eqn:E2.
+      * constructor; [lia|]. exact IH.
+      * constructor; auto.
+Qed.
+Lemma sort_by_index_sorted : forall l, sorted_idx (sort_by_index l).
+Proof. induction l; simpl; [constructor | apply insert_sorted_sorted; auto]. Qed.
+
+Lemma sorted_head_min : forall d t, sorted_idx (d :: t) -> forall e, In e t -> d_index d <= d_index e.
+Proof.
+  intros d t; revert d. induction t as [|a t IH]; intros d H e Hin; [contradiction|].
+  inversion H; subst. destruct Hin as [<-|Hin]; auto.
+  eapply Nat.le_trans; [eassumption | apply IH; auto].
+Qed.
+
+Lemma emit_indices : forall ds st out st', emit ds st = (out, st') -> map od_index out = map d_index ds.
+Proof.
+  induction ds as [|d ds IH]; simpl; intros st out st' H; [inversion H; reflexivity|].
+  destruct (make_bookmark (d_name d) st) as [b st1]. destruct (emit ds st1) as [o1 s2] eqn:E. inversion H; subst.
+  simpl. f_equal. eapply IH; eauto.
+Qed.
+
+Theorem first_has_least_index : forall G o fx root fuel out st d t,
+  to_railroad G o fx root fuel = (Ok out, st) -> out = d :: t -> forall e, In e t -> od_index d <= od_index e.
+Proof.
+  intros G o fx root fuel out st d t H Ho e Hin. unfold to_railroad, to_railroad_from in H.
+  destruct (conv G o fx fuel 1 root None 0 None init_state) as [[r|] st1]; [|discriminate].
+  destruct (emit _ (root_extract G root st1)) as [out' st2] eqn:E. inversion H; subst out'.
+  pose proof (emit_indices _ _ _ _ E) as Hi.
+  set (ds := select (map snd (c_diagrams (root_extract G root st1)))) in *.
+  assert (Hs : sorted_idx ds) by (apply sort_by_index_sorted).
+  subst out. destruct ds as [|d0 ds0]; [discriminate|]. simpl in Hi. injection Hi as Hd Ht.
+  apply (in_map od_index) in Hin. rewrite Ht in Hin. apply in_map_iff in Hin as (e0 & He0 & Hin0).
+  rewrite Hd, <- He0. eapply sorted_head_min; eauto.
+Qed.
+
+Theorem names_distinct : forall G o fx root fuel out st,
+  to_railroad G o fx root fuel = (Ok out, st) -> NoDup (map od_name out).
+Proof.
+  intros G o fx root fuel out st H. unfold to_railroad, to_railroad_from in H.
+  destruct (conv G o fx fuel 1 root None 0 None init_state) as [[r|] st1]; [|discriminate].
+  destruct (emit _ (root_extract G root st1)) as [out' st2] eqn:E. inversion H; subst out'.
+  apply emit_facts in E as (_ & E & _). rewrite E. apply select_names_nodup.
+Qed.
